@@ -97,6 +97,9 @@ func annotate(rl *RLSpec, id, parent string, cfg *c02cfg) {
 		rid := id + "/" + strconv.Itoa(i)
 		hs := []HSpec{{Kind: "vmark", Name: "R:" + rid}}
 		for _, h := range r.Handlers {
+			if h.Kind == "subroute" {
+				hs = append(hs, HSpec{Kind: "vmark", Name: "E:" + rid + "s"})
+			}
 			hs = append(hs, h)
 			if h.Kind == "subroute" {
 				sub := rid + "s"
@@ -138,7 +141,7 @@ func runC02(t *testing.T, e *worlds.Env, tier string) (bool, any) {
 		e.N.Cfg = netKnobs(e)
 		yieldKnob(e)
 		b := &Builder{E: e, Tag: "C02", Hist: &hist}
-		o := &genOpts{wrappers: false, maxDepth: 2, maxRoutes: 4,
+		o := &genOpts{wrappers: false, maxDepth: 2, maxRoutes: 4, noEcho: true,
 			allowFail: e.T.Prob(1, 4, "allow-fail"), allowNever: e.T.Prob(1, 4, "allow-never")}
 		appLen := genAppLen(e, "quick")
 		if appLen > 4096 && e.N.Cfg.Window > 0 && e.N.Cfg.Window < 1500 {
